@@ -204,6 +204,22 @@ CLAIMED = {
              "whitespace in delimiters are out of model.",
         design_ref="§5 C39",
     ),
+    "C11": dict(
+        category="proof",
+        technique="Lean 4 proofs over the lexer model (line-break normalisation, trailing newline, single data token for "
+                  "sources without start sequences) + exhaustive short strings and random long texts rendered end-to-end",
+        text="Theorems (Props/C11.lean): splitting on \\r\\n|\\r|\\n and re-joining equals replacing every line break by \\n "
+             "(join_split_eq_normNl); preprocess keeps the normalised source under keep_trailing_newline and otherwise removes "
+             "at most one trailing \\n (preprocess_keep, preprocess_drop); if no root alternative matches anywhere the lexer "
+             "yields exactly one data token holding the whole preprocessed source (plain_single_data); a comment adds only "
+             "ignored tokens (comment_tokens_ignored); newline conversion with the default sequence is the identity. Tie: "
+             "every string of length <=5 (quick) / <=6 (thorough) over 9 characters incl. partial delimiters and CR/LF, random "
+             "long Unicode/control texts, random raw blocks and comments with look-alikes, rendered under 3 newline "
+             "sequences x keep_trailing_newline (x trim/lstrip) and compared with the model's data tokens.",
+        note="Trusted: Lean kernel; lexer model hand scanners (differentially validated); parser/compiler path for data-only "
+             "templates is end-to-end only.",
+        design_ref="§5 C11",
+    ),
 }
 
 NOT_YET = "not yet decided by the Lean model in this revision (machinery for it is not built; see DESIGN.md §8 build order)"
